@@ -25,6 +25,9 @@ void verif_on_throw(void* obj) {
   V_ASSERT(expect_throw != NULL, "operation raised an exception although its arguments are in contract");
   if (expect_throw == NULL) return;
   V_ASSERT(obj == expect_throw, "the documented exception (IOError) is raised");
+  /* the state an exception leaves behind: ISO C closes the stream even when fclose reports an error, so a File whose
+   * close failed must not keep the handle (a later sclose / del / sopen would touch a stale FILE*) */
+  V_ASSERT(F == NULL || F->file == NULL || vf_is_open(F->file), "whatever fails, a File's handle is either cleared or still a live stream -- never a stale one");
   V_WITNESS_OPT("throw path reached");
 }
 V_HARNESS {
